@@ -235,6 +235,38 @@ theorem minImageSq_le_direct (a b L : V3) (hL : boxPos L) : minImageSq a b L ≤
   have h3 := mul_self_le_of_abs (miComp_nonneg a.z b.z L.z hz) (miComp_le_abs a.z b.z L.z hz)
   linarith
 
+/-- one axis of the minimum image is at most half the box length -/
+theorem miComp_le_half (a b L : ℚ) (hL : 0 < L) : miComp a b L ≤ L / 2 := by
+  unfold miComp
+  have hu0 := pmod_nonneg (a - b) L hL
+  have hu1 := pmod_lt (a - b) L hL
+  have hk : b - a = -(pmod (a - b) L) + L * ((-⌊(a - b) / L⌋ : ℤ) : ℚ) := by
+    rw [pmod_def]; push_cast; ring
+  rcases eq_or_lt_of_le hu0 with h0 | hpos
+  · exact le_trans (min_le_left _ _) (by rw [← h0]; linarith)
+  · have h2 : pmod (b - a) L = L - pmod (a - b) L := by
+      rw [hk, pmod_add_int _ _ _ hL]
+      exact pmod_neg_of_range _ L hL hpos hu1.le
+    rw [h2]
+    rcases le_total (pmod (a - b) L) (L / 2) with h | h
+    · exact le_trans (min_le_left _ _) h
+    · exact le_trans (min_le_right _ _) (by linarith)
+
+theorem minImageSq_le_half_box (a b L : V3) (hL : boxPos L) :
+    minImageSq a b L ≤ (L.x * L.x + L.y * L.y + L.z * L.z) / 4 := by
+  obtain ⟨hx, hy, hz⟩ := hL
+  simp only [minImageSq, minImageAbs, V3.map3, V3.normSq]
+  have bx := miComp_le_half a.x b.x L.x hx
+  have by' := miComp_le_half a.y b.y L.y hy
+  have bz := miComp_le_half a.z b.z L.z hz
+  have nx := miComp_nonneg a.x b.x L.x hx
+  have ny := miComp_nonneg a.y b.y L.y hy
+  have nz := miComp_nonneg a.z b.z L.z hz
+  have h1 : miComp a.x b.x L.x * miComp a.x b.x L.x ≤ (L.x / 2) * (L.x / 2) := mul_le_mul bx bx nx (by linarith)
+  have h2 : miComp a.y b.y L.y * miComp a.y b.y L.y ≤ (L.y / 2) * (L.y / 2) := mul_le_mul by' by' ny (by linarith)
+  have h3 : miComp a.z b.z L.z * miComp a.z b.z L.z ≤ (L.z / 2) * (L.z / 2) := mul_le_mul bz bz nz (by linarith)
+  nlinarith [h1, h2, h3]
+
 /-- a wrapped step of at most half a box per axis is measured exactly -/
 theorem step_exact (p d L : V3) (hL : boxPos L)
     (hx : |d.x| ≤ L.x / 2) (hy : |d.y| ≤ L.y / 2) (hz : |d.z| ≤ L.z / 2) :
